@@ -269,6 +269,72 @@ example : ∃ s', runM (applyFunction 100 (.func fibVal) [.int 6]) (detState 7) 
         exact ⟨s', h1, h3⟩
       | _ => all_goals simp at h
 
+
+/-! ### parameters with an all-caps name -/
+
+/-- Binding a parameter with an all-caps name moves the callee frame's counter (`TriggerNoCache`: whether `CreateOrSet`
+accepts it depends on the outer constants of that name, now or later), and `applyFunction` compares the counter
+after the body with 0, not with its value after the binding (`applyFunction_quiet_full`): such a call is never
+stored.  (Before grol 577ed27 `f = func(N){N+1}; f(6); N = 5; f(6)` served the stale 7 from the cache instead of
+refusing to change the constant `N`.) -/
+theorem C04.constant_param_is_miss (nenv : Nat) : ∀ (l : List (String × Obj)) (t t' : St),
+    runM (bindParams nenv l) t = (.ok none, t') → (∃ pa ∈ l, isConstant pa.1 = true) → missOf t nenv < missOf t' nenv
+  | [], _, _, _, h => by obtain ⟨_, hm, _⟩ := h; cases hm
+  | (p, a) :: rest, t, t', hrun, hex => by
+    unfold bindParams at hrun
+    rw [runM_bind] at hrun
+    cases hv : runM (valueOf a) t with
+    | mk rv t1 =>
+      rw [hv] at hrun
+      have h1 : missOf t nenv ≤ missOf t1 nenv := by
+        have := missOf_mono (tr_valueOf (o := a)) t nenv; rw [hv] at this; exact this
+      cases rv with
+      | error e => cases hrun
+      | ok pval =>
+        dsimp only at hrun
+        -- the rest of the loop, from any state
+        have hrest : ∀ u u', runM (do
+              let oerr ← createOrSet nenv p pval true
+              if oerr.isError = true then pure (some oerr) else bindParams nenv rest) u = (.ok none, u') →
+            missOf u nenv ≤ missOf u' nenv ∧ ((∃ pa ∈ rest, isConstant pa.1 = true) → missOf u nenv < missOf u' nenv) := by
+          intro u u' hr
+          rw [runM_bind] at hr
+          cases hc : runM (createOrSet nenv p pval true) u with
+          | mk rc u1 =>
+            rw [hc] at hr
+            have h2 : missOf u nenv ≤ missOf u1 nenv := by
+              have := missOf_mono (tr_createOrSet (e := nenv) (n := p) (v := pval) (c := true)) u nenv
+              rw [hc] at this; exact this
+            cases rc with
+            | error e => cases hr
+            | ok oerr =>
+              dsimp only at hr
+              split at hr
+              · rw [runM_pure] at hr; cases hr
+              · have h3 : missOf u1 nenv ≤ missOf u' nenv := by
+                  have := missOf_mono (tr_bindParams (nenv := nenv) (l := rest)) u1 nenv; rw [hr] at this; exact this
+                refine ⟨by omega, fun hex' => ?_⟩
+                have := C04.constant_param_is_miss nenv rest u1 u' hr hex'
+                omega
+        by_cases hp : isConstant p = true
+        · simp only [hp, if_true] at hrun
+          rw [runM_bind] at hrun
+          cases ht : runM (triggerNoCache nenv) t1 with
+          | mk rt t2 =>
+            rw [ht] at hrun
+            cases rt with
+            | error e => cases hrun
+            | ok u0 =>
+              have h2 := Loud.triggerNoCache (e := nenv) t1 u0 t2 ht
+              have h3 := (hrest t2 t' hrun).1
+              omega
+        · simp only [hp, Bool.false_eq_true, if_false] at hrun
+          obtain ⟨pa, hm, hpa⟩ := hex
+          rcases List.mem_cons.1 hm with h | h
+          · subst h; exact absurd hpa hp
+          · have := (hrest t1 t' hrun).2 ⟨pa, h, hpa⟩
+            omega
+
 /-! ### what is still open -/
 
 /-- the state `st` with the memoization switched off and the cache emptied -/
